@@ -76,17 +76,6 @@ reg(Check("C05", "exploration",
            Part("strings", TYPES, "^TestVerifC05Strings$", shards=(16, 16)),
            Part("notifications", SRV, "^TestVerifC05Notifications$", instr=True, gomaxprocs=16, deadline=(300, 3000))]))
 
-reg(Check("C04", "model_checking",
-          "E4a: every ordered list of <=4 (quick) / <=5 (thorough) ranges with Low in [0,6], Hi in {0} or (Low,8], sorted with "
-          "RangeSorter and normalised, compared with set semantics (non-trivial = lists where the normaliser had to merge or "
-          "drop an element).",
-          ["reference = union of half-open ranges, Hi=0 meaning the single id Low"],
-          text="(being extended) bounded-exhaustive enumeration of delete-range lists against a set-semantics reference",
-          note="only the range normaliser so far; history part pending",
-          technique="bounded-exhaustive enumeration against a reference model",
-          engine="E4 enum", claimed=True,
-          parts=[Part("ranges", TYPES, "^TestVerifC04Ranges$", shards=(16, 16))]))
-
 reg(Check("C20", "exploration",
           "ids: each 16-bit lane over all 65536 values against 3 backgrounds through every text/binary/JSON/prefixed form; every "
           "1- and 2-position corruption (full byte range) of 3 valid encodings plus all other lengths; all ordered pairs of a "
